@@ -144,6 +144,18 @@ let register (h : (string, string list -> string) Hashtbl.t)
       Printf.sprintf "%d %d" (if nlmax_ok (nat_of_int (int_of_string n)) l then 1 else 0)
         (if List.for_all in_scope l then 1 else 0)
     | _ -> failwith "nlmax args");
+  (* Model/NlAuto.v: nlauto <lf|crlf|cr|auto> <n_lf> <n_crlf> <n_cr> <input hex|->
+     -> "<terminator selected for the given census> <census of the bytes: lf,crlf,cr> <terminator selected for that census>" *)
+  Hashtbl.replace h "nlauto" (fun args ->
+    match args with
+    | [s; a; b; c; hex] ->
+      let st = (match s with "lf" -> SLf | "crlf" -> SCrlf | "cr" -> SCr | "auto" -> SAuto | _ -> failwith "nlauto setting") in
+      let le_str = function LF -> "lf" | CRLF -> "crlf" | CR -> "cr" in
+      let given = { n_lf = nat_of_int (int_of_string a); n_crlf = nat_of_int (int_of_string b); n_cr = nat_of_int (int_of_string c) } in
+      let cs = census_of (bytes_of_hex hex) in
+      Printf.sprintf "%s %d,%d,%d %s" (le_str (select_le st given)) (int_of_nat cs.n_lf) (int_of_nat cs.n_crlf) (int_of_nat cs.n_cr)
+        (le_str (select_le st cs))
+    | _ -> failwith "nlauto args");
   Hashtbl.replace h "check_exit" (fun args ->
     match args with
     | [bits] ->
